@@ -431,12 +431,34 @@ func c18Dot(adj [][]int, r *core.Rec) {
 		return []graphout.DotAttr{{Name: "weight", Val: i*10 + e}, {Name: "label", Val: c18Labels[(i+e)%len(c18Labels)]}}
 	}
 	label := func(i int) string { return c18Labels[i%len(c18Labels)] }
-	for variant := 0; variant < 2; variant++ {
+	// variant 2: the callbacks hand out prefixes of ONE table with spare capacity behind
+	// them (the caller's storage: the library may read it, not write into it)
+	mkTable := func() []graphout.DotAttr {
+		return []graphout.DotAttr{{Name: "shape", Val: graphout.DotLiteral("box")}, {Name: "tip", Val: c18Labels[2]}, {Name: "w", Val: 2.5}, {Name: "k", Val: 7}, {Name: "z", Val: "spare"}}
+	}
+	libTable, refTable := mkTable(), mkTable()
+	libNodeAttrs, libEdgeAttrs := nodeAttrs, edgeAttrs
+	for variant := 0; variant < 3; variant++ {
 		d := graphout.Dot{}
 		if variant == 1 {
 			d = graphout.Dot{Name: "g \"1\"", Label: label, NodeAttrs: nodeAttrs, EdgeAttrs: edgeAttrs}
 		}
+		if variant == 2 {
+			libNodeAttrs = func(i int) []graphout.DotAttr { return libTable[: 1+i%3 : 4] }
+			libEdgeAttrs = func(i, e int) []graphout.DotAttr { return libTable[: (i+e)%3 : 3] }
+			nodeAttrs = func(i int) []graphout.DotAttr { return refTable[:1+i%3] }
+			edgeAttrs = func(i, e int) []graphout.DotAttr { return refTable[:(i+e)%3] }
+			d = graphout.Dot{Name: "g2", Label: label, NodeAttrs: libNodeAttrs, EdgeAttrs: libEdgeAttrs}
+		}
 		out := d.Sprint(g)
+		if variant == 2 {
+			for i := range libTable {
+				if libTable[i] != refTable[i] {
+					r.Fail("Dot-attrs-modified", "Dot.Sprint wrote into the attribute table returned by NodeAttrs/EdgeAttrs: entry %d is now %+v, was %+v", i, libTable[i], refTable[i])
+					break
+				}
+			}
+		}
 		r.Trans(1)
 		lines := strings.Split(out, ";\n")
 		// first chunk holds the header line too
@@ -504,7 +526,7 @@ func c18Dot(adj [][]int, r *core.Rec) {
 			}
 			var want []graphout.DotAttr
 			haveLabel := false
-			if variant == 1 {
+			if variant >= 1 {
 				want = append(want, nodeAttrs(u)...)
 				for _, a := range want {
 					if a.Name == "label" {
@@ -514,7 +536,7 @@ func c18Dot(adj [][]int, r *core.Rec) {
 			}
 			if !haveLabel {
 				l := strconv.Itoa(u)
-				if variant == 1 {
+				if variant >= 1 {
 					l = label(u)
 				}
 				want = append(want, graphout.DotAttr{Name: "label", Val: l})
@@ -535,8 +557,8 @@ func c18Dot(adj [][]int, r *core.Rec) {
 					return
 				}
 				var want []graphout.DotAttr
-				if variant == 1 {
-					want = edgeAttrs(u, e)
+				if variant >= 1 {
+					want = append([]graphout.DotAttr{}, edgeAttrs(u, e)...)
 				}
 				if len(st.attrs) != len(want) {
 					r.Fail("Dot-edge-attrs", "variant %d: edge statement %q has %d attributes, want %d", variant, st.raw, len(st.attrs), len(want))
